@@ -68,6 +68,10 @@ def materialise(tree, root, rnd):
     same_name = len(tree) <= 4 and rnd.random() < 0.3       # every file has the SAME name, each in a directory of its own
     family = (not same_name) and len(tree) <= 4 and rnd.random() < 0.3      # one directory, names that extend one another
     fam_stems = rnd.sample(["theme", "theme2", "theme.min", "themeA", "theme-dark", "theme_2", "site", "site.min"], 4)
+    if rnd.random() < 0.35:
+        # names that differ only in their Unicode normalisation form (precomposed / decomposed): two different files here
+        fam_stems = ["caf\u00e9", "cafe\u0301", "\u00c5ngstr\u00f6m", "A\u030angstro\u0308m"]
+        rnd.shuffle(fam_stems)
     dirs = ["", "sub", "sub/deep", "other", ".hidden", ".config/styles", "sub/.cache"]      # (dot-directories are directories)
     paths = {}
     for s, kind in enumerate(tree, start=1):
